@@ -101,8 +101,28 @@ iwrc iwp_copy_bytes(HANDLE fh, off_t off, size_t siz, off_t noff) {
   off_t pos = 0;
   uint8_t buf[4096];
   if (overlap && (noff > off)) {
-    // todo resolve it!!
-    return IW_ERROR_OVERFLOW;
+    // Forward overlap: move the chunks back to front,
+    // no byte of the source is overwritten before it has been read
+    pos = (off_t) siz;
+    while (pos > 0) {
+      size_t c = MIN(sizeof(buf), (size_t) pos);
+      rc = iwp_pread(fh, off + pos - (off_t) c, buf, c, &sp);
+      if (rc) {
+        break;
+      }
+      if (sp) {
+        rc = iwp_pwrite(fh, noff + pos - (off_t) c, buf, sp, &sp2);
+        if (rc) {
+          break;
+        }
+        if (sp != sp2) {
+          rc = IW_ERROR_INVALID_STATE;
+          break;
+        }
+      }
+      pos -= (off_t) c;
+    }
+    return rc;
   }
 #if !defined(__APPLE__) && !defined(_WIN32)
   if (siz > sizeof(buf)) {
